@@ -360,6 +360,33 @@ func valueFor(name, vt, cls string, wild bool) interface{} {
 	if wild {
 		return wildValue(cls)
 	}
+	if vt == "oddstr" {
+		switch cls {
+		case "hash":
+			return "#"
+		case "hashslash":
+			return "#/"
+		case "dblhash":
+			return "##"
+		case "badpct":
+			return "%zz"
+		case "badhost":
+			return "http://[::1"
+		case "noscheme":
+			return ":no-scheme"
+		case "space":
+			return "a b/c d.json#/x y"
+		case "ctl":
+			return "a\u0001b"
+		case "tilde2":
+			return "#/a~2b/~"
+		case "onlyquery":
+			return "?q=1"
+		case "longfrag":
+			return "x.json#/definitions/" + strings.Repeat("a/", 300)
+		}
+		return cls
+	}
 	switch vt {
 	case "str":
 		if cls == "emptyStr" {
